@@ -38,9 +38,19 @@ def scenarios(rng, tier):
         else:
             s.frame(0, emit(M, own, [], seq=rng.randrange(1, 65536), count=0))
     return [(s.text(), {})]
+def act_shape(a):
+    if a[0] == 'sleep': return ('sleep', a[1])
+    f = dec(a[2])
+    if f is None: return ('send', 'runt')
+    if f['opc'] == 5: return ('ack', f['edst'], f['rdst'], f['rsrc'], f['seq'], len(a[2]))
+    return ('send', f['opc'], f['edst'], f['esrc'], f['rsrc'], len(a[2]))
 def project(blk, name, meta):
+    # for Emit frames: the ordered port calls reduced to the fields the property names
     if blk.fault: return ('fault',)
-    if blk.op.startswith('frame'): return tuple(blk.acts)
+    if blk.op.startswith('frame'):
+        d = frame_hdr(blk)
+        if d and d['tos'] == 0 and d['opc'] == 2: return tuple(act_shape(a) for a in acts_of(blk))
+        return send_opcodes(blk)
     return ()
 def oracle(name, ib, mb, meta):
     fails = []; mtu = 1500; own = OWN0; mapper = None
@@ -61,16 +71,26 @@ def oracle(name, ib, mb, meta):
         if not (1 <= n <= cap) or mapper is None or mapper[0] != d['rsrc']: continue
         descs = [buf[34 + 14 * j: 48 + 14 * j] for j in range(n)]
         if any(x[0] not in (0, 1) for x in descs): continue
+        # what the property prescribes: per descriptor a pause and a 32-byte Probe/Train with the descriptor's source and
+        # destination as Ethernet addresses and the own address as real source; then one ACK to the mapper with the Emit's
+        # sequence number.  Fields the property leaves open (real destination and sequence number of a Probe) are not compared.
+        def shape(a):
+            if a[0] == 'sleep': return ('sleep', a[1])
+            f = dec(a[2])
+            if f is None: return ('send', 'runt')
+            if f['opc'] == 5: return ('ack', f['edst'], f['rdst'], f['rsrc'], f['seq'], len(a[2]))
+            return ('send', f['opc'], f['edst'], f['esrc'], f['rsrc'], len(a[2]))
         want = []
         for x in descs:
             want.append(('sleep', x[1]))
-            want.append(('send', 0, base(x[8:14], x[2:8], 0, 4 if x[0] == 1 else 3, x[8:14], own, 0)))
-        want.append(('send', 0, base(mapper[1], own, 0, 5, mapper[0], own, d['seq'])))
-        if acts != want:
-            k = next((j for j in range(min(len(acts), len(want))) if acts[j] != want[j]), min(len(acts), len(want)))
+            want.append(('send', 4 if x[0] == 1 else 3, bytes(x[8:14]), bytes(x[2:8]), own, 32))
+        want.append(('ack', mapper[1], mapper[0], own, d['seq'], 32))
+        got = [shape(a) for a in acts]
+        if got != want:
+            k = next((j for j in range(min(len(got), len(want))) if got[j] != want[j]), min(len(got), len(want)))
+            fmt = lambda t: tuple(v.hex() if isinstance(v, bytes) else v for v in t)
             fails.append((i, 'Emit with %d descriptors: port call %d is %s, must be %s (%d calls made, %d prescribed)' % (
-                n, k, (acts[k][0], acts[k][-1].hex() if isinstance(acts[k][-1], bytes) else acts[k][-1]) if k < len(acts) else 'missing',
-                (want[k][0], want[k][-1].hex() if isinstance(want[k][-1], bytes) else want[k][-1]) if k < len(want) else 'nothing', len(acts), len(want))))
+                n, k, fmt(got[k]) if k < len(got) else 'missing', fmt(want[k]) if k < len(want) else 'nothing', len(got), len(want))))
     return fails
 def count(name, lines, ib, stats, meta):
     mtu = 1500
